@@ -630,6 +630,23 @@ class Gen:
         self.cx.append(f"  static {q} *p[3] = {{new {q}(vf::PoolTag()), new {q}(vf::PoolTag()), new {q}(vf::PoolTag())}};")
         self.cx.append("  return p[h % 3];")
         self.cx.append("}")
+        # native helpers for drivers: state peek, member peek, static_cast to each direct base
+        cid = q.replace("::", "_")
+        self.cx.append(f'extern "C" unsigned long long vf_state_{cid}(const void *p) {{ return ((const {q} *)p)->st_{name}; }}')
+        for b, _ in bases:
+            bid = b.replace("::", "_")
+            self.cx.append(f'extern "C" void *vf_cast_{cid}__{bid}(void *p) {{ return static_cast<{b} *>(({q} *)p); }}')
+        for m in members_decl:
+            if m["array"]:
+                continue
+            k = m["type"]["k"]
+            acc = f"{q}::{m['name']}" if m["static"] else f"(({q} *)p)->{m['name']}"
+            if k in ("int", "bool"):
+                self.cx.append(f'extern "C" long long vf_peek_{cid}_{m["name"]}(void *p) {{ return (long long){acc}; }}')
+            elif k == "float":
+                self.cx.append(f'extern "C" double vf_peek_{cid}_{m["name"]}(void *p) {{ return (double){acc}; }}')
+            elif k == "string":
+                self.cx.append(f'extern "C" const char *vf_peek_{cid}_{m["name"]}(void *p) {{ return {acc}.c_str(); }}')
         cls["complete"] = True
         return cls
 
